@@ -35,7 +35,9 @@ def _mat_sampler(rng):
 
     def spd(k):
         a = r.randn(k, k)
-        return a @ a.T + k * _np.eye(k)
+        s = a @ a.T + k * _np.eye(k)
+        # covariances of very different physical scales (e.g. volume mixing ratios ~1e-6, radiances ~1e-12)
+        return s * rng.choice([1.0, 1.0, 1e-12, 1e-24, 1e6])
     return dict(K=r.randn(m, n), S_a=spd(n), S_y=spd(m))
 
 
